@@ -876,6 +876,21 @@ pub fn check(ctx: &Ctx) {
         crate::props::c16::tamper_cases(quick).into_par_iter(),
         run_cleartext,
     );
+    let mut uc = Vec::new();
+    for key in [KeyKind::Ed25519V4, KeyKind::Ed25519V6, KeyKind::EcdsaP256V4, KeyKind::Rsa2048V4] {
+        for how in 0..3u8 {
+            for secret in [false, true] {
+                uc.push(UnboundCase { key, how, secret });
+            }
+        }
+    }
+    ctx.run_space(
+        "unbound_components",
+        true,
+        "certificates (public and secret form, 4 key kinds) changed through the public fields: the subkey's binding signatures removed; another certificate's subkey added without a signature, and with that other certificate's binding signature: verify_bindings must not accept (a key nothing binds is a substituted key)",
+        uc.into_par_iter(),
+        run_unbound,
+    );
     let mut xc = Vec::new();
     for (lines, eol, fin, cfg) in [(vec![1u8], 0u8, 0u8, 0u8), (vec![1, 2, 6], 0, 1, 0), (vec![], 0, 0, 0), (vec![10, 7], 0, 1, 3)] {
         let base = crate::props::c16::TextCase { lines, eol, fin, cfg };
@@ -960,6 +975,56 @@ fn run_cleartext_ext(c: &ExtCase) -> Outcome {
     o
 }
 
+#[derive(Clone, Debug, Hash, Serialize, Deserialize)]
+pub struct UnboundCase {
+    pub key: KeyKind,
+    /// 0: the subkey's binding signatures removed; 1: a subkey of another certificate added
+    /// without any signature; 2: the same with the other certificate's binding signature
+    pub how: u8,
+    pub secret: bool,
+}
+
+/// Components that nothing binds to the primary key: `verify_bindings` must not accept them.
+fn run_unbound(c: &UnboundCase) -> Outcome {
+    let cert = common::cert(c.key, 1);
+    let other = common::cert(c.key, 2);
+    let mut o = Outcome::ok("rejected");
+    let what = format!("{c:?}");
+    let verdict: Result<(), String> = if c.secret {
+        let mut k = (*cert).clone();
+        match c.how {
+            0 => k.secret_subkeys[0].signatures.clear(),
+            1 => {
+                let mut s = other.secret_subkeys[0].clone();
+                s.signatures.clear();
+                k.secret_subkeys.push(s);
+            }
+            _ => k.secret_subkeys.push(other.secret_subkeys[0].clone()),
+        }
+        k.verify_bindings().map_err(|e| e.to_string())
+    } else {
+        let mut k = cert.to_public_key();
+        let op = other.to_public_key();
+        match c.how {
+            0 => k.public_subkeys[0].signatures.clear(),
+            1 => {
+                let mut s = op.public_subkeys[0].clone();
+                s.signatures.clear();
+                k.public_subkeys.push(s);
+            }
+            _ => k.public_subkeys.push(op.public_subkeys[0].clone()),
+        }
+        k.verify_bindings().map_err(|e| e.to_string())
+    };
+    if verdict.is_ok() {
+        o.push(
+            "C02:cert:unbound-subkey-accepted",
+            format!("{what}: verify_bindings accepts a certificate with a subkey that {} binds to its primary key", if c.how == 2 { "another primary's signature" } else { "no signature" }),
+        );
+    }
+    o
+}
+
 fn run_cleartext(c: &crate::props::c16::MutCase) -> Outcome {
     let mut o = crate::props::c16::run_mut(c);
     for v in &mut o.viol {
@@ -971,6 +1036,9 @@ fn run_cleartext(c: &crate::props::c16::MutCase) -> Outcome {
 pub fn replay(space: &str, case: &Value) -> Option<Outcome> {
     if space == "cleartext_documents" {
         return replay_as(case, run_cleartext);
+    }
+    if space == "unbound_components" {
+        return replay_as(case, run_unbound);
     }
     if space == "cleartext_documents_extended" {
         return replay_as(case, run_cleartext_ext);
